@@ -7,7 +7,7 @@ from harness.props import C01
 ID = 'C02'
 LEAN_TARGETS = ['Props.C02']
 # Tie A: equivalence theorems generated from the current source by translate/py2lean.py (checked on every run)
-TIE_A = ['imt_check_eq_model', 'omt_check_eq_model', 'lcmt_check_eq_model'] + ['construct_graded_mt_eq']
+TIE_A = ['imt_check_eq_model', 'omt_check_eq_model', 'lcmt_check_eq_model'] + ['construct_graded_mt_eq'] + ['meth_operators_eq']
 OBLIGATIONS = [
     'C02.outer_is_grade_sum', 'C02.inner_is_grade_absdiff', 'C02.inner_scalar_left', 'C02.inner_scalar_right',
     'C02.lc_is_grade_diff', 'C02.lc_zero_of_gt', 'C02.add_left', 'C02.add_right', 'C02.smul_left', 'C02.smul_right',
